@@ -1,8 +1,11 @@
 (* C06 — Request-n flow control: emission never exceeds granted credit.
    Statements only; proofs in proofs/PublisherProofs.v; model in model/Publisher.v (the credit-driven producer
-   shared by StreamFromGenerator, StreamFromAsyncGenerator and the Rx/ReactiveX BackPressurePublisher). *)
-From Coq Require Import NArith List.
-From RSV Require Import model.Publisher proofs.PublisherProofs.
+   shared by StreamFromGenerator, StreamFromAsyncGenerator and the Rx/ReactiveX BackPressurePublisher).  The last clause (credit
+   granted by an application reaches the peer with exactly that value) is stated over model/Endpoint.v and
+   model/Network.v (two endpoints joined by per-stream FIFO links), proofs in proofs/NetworkCredit.v. *)
+From Coq Require Import NArith List Init.Byte.
+From RSV Require Import lib.Bytes model.Frame model.Endpoint model.Network model.Publisher proofs.PublisherProofs
+     proofs.NetworkProofs proofs.NetworkCredit.
 Import ListNotations.
 Open Scope N_scope.
 
@@ -33,3 +36,79 @@ Theorem C06_cancel_silences : forall ls s, cancelled s = true ->
   delivered (fold_left pstep ls s) = delivered s /\ cancelled (fold_left pstep ls s) = true.
 Proof. exact cancel_silences. Qed.
 Print Assumptions C06_cancel_silences.
+
+(* ---------- credit granted by an application is transmitted to the peer with exactly that value ---------- *)
+(* Subscription.request(n) on an object the endpoint holds: exactly one REQUEST_N frame, on the object's stream, value n *)
+Theorem C06_request_n_emitted : forall u e oid o n, nth_error (objs e) oid = Some o ->
+  snd (ep_step u e (LRequestN oid n)) = [XEnq (FRequestN (o_sid o) false n)].
+Proof. exact request_n_emitted. Qed.
+Print Assumptions C06_request_n_emitted.
+
+(* initial_request_n(n), n > 0: recorded in the object, nothing sent, the stream table untouched *)
+Theorem C06_initial_n_recorded : forall u e oid o n, nth_error (objs e) oid = Some o ->
+  let r := ep_step u e (LInitialN oid n true) in
+  snd r = [] /\ nth_error (objs (fst r)) oid = Some (upd_n o n) /\ table (fst r) = table e.
+Proof. exact initial_n_recorded. Qed.
+Print Assumptions C06_initial_n_recorded.
+
+(* subscribe on a stream / channel requester: the request frame carries the recorded initial request-n *)
+Theorem C06_subscribe_carries_initial_n : forall u e oid o hs md d, nth_error (objs e) oid = Some o ->
+  (o_kind o = KRSReq \/ o_kind o = KChanReq) ->
+  pmap credit_of (sent_frames (snd (ep_step u e (LSubscribe oid hs md d)))) = [o_n o].
+Proof. exact subscribe_carries_initial_n. Qed.
+Print Assumptions C06_subscribe_carries_initial_n.
+
+(* and no other section of an endpoint queues a frame that carries credit (credit_of: the request-n field of
+   REQUEST_STREAM, REQUEST_CHANNEL and REQUEST_N frames) *)
+Theorem C06_local_credit : forall u e l, is_recv l = false ->
+  pmap credit_of (sent_frames (snd (ep_step u e l))) = [] \/
+  (exists oid n, l = LRequestN oid n /\ pmap credit_of (sent_frames (snd (ep_step u e l))) = [n]) \/
+  (exists oid hs md d o, l = LSubscribe oid hs md d /\ nth_error (objs e) oid = Some o /\
+                         pmap credit_of (sent_frames (snd (ep_step u e l))) = [o_n o]).
+Proof. exact local_credit. Qed.
+Print Assumptions C06_local_credit.
+
+(* receiving side: a REQUEST_N for a stream whose object has a producer calls request(n) on it with the frame's value,
+   and does nothing else *)
+Theorem C06_request_n_delivered : forall e sid oid ob ign n o u,
+  sid <> 0 -> tget (table e) sid = Some oid -> nth_error (objs e) oid = Some ob ->
+  (o_kind ob = KRSResp \/ ((o_kind ob = KChanReq \/ o_kind ob = KChanResp) /\ o_has_pub ob = true)) ->
+  snd (recv_dispatch e (FRequestN sid ign n) o u) = [XPub oid (PRequestN n)].
+Proof. exact request_n_delivered. Qed.
+Print Assumptions C06_request_n_delivered.
+
+(* a REQUEST_STREAM on a free id whose handler returns a publisher: it is given the frame's initial request-n *)
+Theorem C06_initial_n_delivered : forall e sid ign fo n md d o u,
+  sid <> 0 -> tget (table e) sid = None -> o <> ORaise ->
+  pub_credits (snd (recv_dispatch e (FRequestStream sid ign fo n md d) o u)) = [n].
+Proof. exact initial_n_delivered. Qed.
+Print Assumptions C06_initial_n_delivered.
+
+(* any dispatch: the producers are given no credit, or exactly the value the dispatched frame carries, once *)
+Theorem C06_dispatch_credit : forall e f o u,
+  pub_credits (snd (recv_dispatch e f o u)) = [] \/
+  exists n, credit_of f = Some n /\ pub_credits (snd (recv_dispatch e f o u)) = [n].
+Proof. exact dispatch_credit. Qed.
+Print Assumptions C06_dispatch_credit.
+
+(* OVER WHOLE HISTORIES of two connected endpoints (application calls, deliveries at any later moment, streams
+   overtaking each other, cancels, failures, close sweeps), each side s and stream k: the request(n) calls the producers
+   at s are given for stream k are, in order and without repetition, credit values of the frames the peer queued on k —
+   no value altered, merged, split, invented, repeated or taken from another stream *)
+Theorem C06_network_credit : forall ls s k,
+  let tr := snd (net_run net_init ls) in
+  subseq (credits_got tr s k) (pmap credit_of (on_stream k (nwire tr (other s)))).
+Proof. exact network_credit. Qed.
+Print Assumptions C06_network_credit.
+
+(* non-vacuity: B requests a stream with initial_request_n(2), later request(3); A's publisher is given 2, then 3 *)
+Theorem C06_credit_example :
+  let ls := [NLocal SB (LReqStream [x03] [x04]); NLocal SB (LInitialN 0%nat 2 true);
+             NLocal SB (LSubscribe 0%nat true [x03] [x04]);
+             NDeliver SA 2 OPublisher true;
+             NLocal SB (LRequestN 0%nat 3);
+             NDeliver SA 2 ONone true] in
+  let tr := snd (net_run net_init ls) in
+  credits_got tr SA 2 = [2; 3] /\ pmap credit_of (on_stream 2 (nwire tr SB)) = [2; 3].
+Proof. exact credit_example. Qed.
+Print Assumptions C06_credit_example.
